@@ -6,6 +6,8 @@ oracle (brute-force reading of the documented priority; dense reconstruction of 
 import math
 
 import common
+import c15_audit
+import c15_cov
 import c15_streams
 from common import coq_lit, Nat, opt, CoqRaw
 
@@ -14,9 +16,12 @@ SCALE = 1 << K
 RATIOS = [(15000001, 10000000), (10000001, 10000000), (30000001, 10000000)]
 
 
-def gen_case(rng, wide=False):
-    """One truncate case: integer spectrum + options, both as impl floats and model integers."""
+def gen_case(rng, wide=False, big=False):
+    """One truncate case: integer spectrum + options, both as impl floats and model integers.
+    big: more than 100 values, so that the DEFAULT chi_max = 100 decides when the option is absent."""
     n = rng.choice([1, 1, 2, 3, 4, 5, 6, 8, 12, 20]) if not wide else rng.randint(1, 40)
+    if big:
+        n = rng.randint(101, 140)
     style = rng.random()
     if style < 0.25:      # many exact ties and zeros
         pool = [0, 0, rng.randint(1, 30), rng.randint(1, 30), rng.randint(100, 4000)]
@@ -38,8 +43,10 @@ def gen_case(rng, wide=False):
         return 'value'
     # chi_max
     c = choose('chi_max')
+    if big:
+        c = rng.choice(['absent', 'absent', 'absent', 'value', None])
     if c == 'value':
-        v = rng.choice([0, 1, 1, 2, 3, n - 1, n, n + 1, n + 5, rng.randint(1, max(1, n))])
+        v = rng.choice([0, 1, 1, 2, 3, n - 1, n, n + 1, n + 5, rng.randint(1, max(1, n))] + ([99, 100, 101] if big else []))
         v = max(0, v)
         o_impl['chi_max'] = v
         m_chi_max = v
@@ -190,14 +197,22 @@ def gen_tiny_rank_case(rng, seed, i):
     if rng.random() < 0.5:
         spec['labels'] = rng.choice([['vL', 'vR'], ['(vL.p0)', '(p1.vR)'], ['x', 'y']])
     nsv = full_svd_len(spec)
-    opts = {'chi_max': rng.choice([None, None, 100, 100, 1000, max(1, nsv // 101), 1, 2]), 'svd_min': cut[0], 'trunc_cut': cut[1],
+    opts = {'chi_max': rng.choice([None, None, 100, 100, 1000, max(1, nsv // 101), 1, 2, 'absent', 'absent']), 'svd_min': cut[0], 'trunc_cut': cut[1],
             'chi_min': rng.choice(['absent', 'absent', None, 2]), 'degeneracy_tol': rng.choice(['absent', None, 1e-6])}
-    return {'seed': seed, 'opts': opts, 'eigh': False, 'spec': spec, 'tiny_rank': True,
+    return {'seed': seed, 'opts': opts, 'eigh': (i // 2) % 2 == 1, 'spec': spec, 'tiny_rank': True, 'config': rng.random() < 0.3,
             'inner_labels': rng.choice([None, None, ['vR', 'vL'], ['r', 'l'], ['vR*', 'vL*']])}
+
+
+def run_kind(ctx, stream, kind, chunks):
+    """one implementation process per chunk; the coverage report of each process goes to ctx.c15cov"""
+    res = common.run_impl_parallel('c15_impl.py', [{'kind': kind, 'cases': ch, 'cov': True} for ch in chunks])
+    return [ctx.c15cov.unwrap(stream, r) for r in res]
 
 
 def main(ctx):
     rng = ctx.rng
+    ctx.c15cov = c15_cov.Merger()
+    ctx.c15params = params = c15_cov.Params()
     ctx.proof = common.check_proofs('C15', extra_targets=['Model/TruncBookCheck.vo'])
     ncases = ctx.pick(3000, 40000)
     if not ctx.proof.ok:
@@ -205,9 +220,10 @@ def main(ctx):
     cases = [c['case'] for c in common.corpus_cases('C15') if c.get('stream') == 'truncate']
     cases += [gen_case(rng) for _ in range(ncases)]
     cases += [gen_case(rng, wide=True) for _ in range(ncases // 10)]
+    cases += [gen_case(rng, big=True) for _ in range(ncases // 100)]
     # ---- implementation
     chunks = [cases[i::common.NPROC] for i in range(common.NPROC)]
-    res = common.run_impl_parallel('c15_impl.py', [{'kind': 'truncate', 'cases': ch} for ch in chunks])
+    res = run_kind(ctx, 'truncate', 'truncate', chunks)
     results = [None] * len(cases)
     for i, (r, err) in enumerate(res):
         if err:
@@ -237,6 +253,15 @@ def main(ctx):
         n2_i = r['norm_new'] ** 2 * SCALE * SCALE
         # ---- oracle (independent of the Coq model): documented priority by brute force
         cut, ss = oracle_cut(s, case['model'])
+        for oname, mname in (('chi_max', 'chi_max'), ('chi_min', 'chi_min'), ('degeneracy_tol', 'deg'), ('svd_min', 'svd_min'),
+                             ('trunc_cut', 'tc2')):
+            v = case['opts'].get(oname, 'absent')
+            cat = 'absent' if v == 'absent' else 'None' if v is None else 'value'
+            if case['model'][mname] is not None and oracle_cut(s, dict(case['model'], **{mname: None}))[0] != cut:
+                cat += ':binding'
+            params.note('truncate', 'options.' + oname, cat)
+        params.note('truncate', 'S', 'plain')
+        params.note('truncate', 'options', 'plain')
         problems = []
         if disc and kept and max(disc) > min(kept):
             problems.append('discarded %d > kept %d' % (max(disc), min(kept)))
@@ -281,7 +306,7 @@ def main(ctx):
         c = gen_case(rng)
         c['opts']['trunc_cut'] = rng.choice([1.0, 1.5, 7.0])
         bad_cases.append(c)
-    (r, err), = common.run_impl_parallel('c15_impl.py', [{'kind': 'truncate', 'cases': bad_cases}])
+    (r, err), = run_kind(ctx, 'truncate-malformed', 'truncate', [bad_cases])
     if err:
         ctx.fail('correspondence', err[-300:], None)
     else:
@@ -298,7 +323,7 @@ def main(ctx):
                        'S_disc': [rng.randint(0, 1000) / 4096 for _ in range(rng.randint(0, 5))],
                        'norm_old': rng.choice([None, 1.0, 2.0, 0.5]),
                        'norm_new': rng.randint(1, 4096) / 4096})
-    (r, err), = common.run_impl_parallel('c15_impl.py', [{'kind': 'err', 'cases': ecases}])
+    (r, err), = run_kind(ctx, 'err-arith', 'err', [ecases])
     if err:
         ctx.fail('correspondence', err[-300:], None)
     else:
@@ -317,6 +342,8 @@ def main(ctx):
                   and abs(x['from_S_ov'] - (1 - 2 * fs)) < 1e-12 and abs(x['from_norm_eps'] - fn) < 1e-12
                   and abs(x['from_norm_ov'] - (1 - 2 * fn)) < 1e-12)
             ctx.count('err-arith', c, nontrivial=len(c['eps_list']) > 1)
+            params.note('TruncationError.from_S', 'norm_old', repr(c['norm_old']))
+            params.note('TruncationError.from_norm', 'norm_old', repr(c['norm_old'] or 1.0))
             if not ok:
                 ctx.fail('oracle', 'TruncationError arithmetic (sum of eps / from_S / from_norm) wrong: %s' % x,
                          {'stream': 'err', 'case': c})
@@ -328,7 +355,7 @@ def main(ctx):
         xcases.append({'eps_list': [(rng.randint(0, 1 << 20), 1 << 40) for _ in range(rng.randint(0, 6))],
                        'S_disc': [(rng.randint(0, 1000), 4096) for _ in range(rng.randint(0, 5))],
                        'norm_old': no, 'norm_new': (rng.randint(1, 4096), 4096)})
-    (r, err), = common.run_impl_parallel('c15_impl.py', [{'kind': 'err_exact', 'cases': xcases}])
+    (r, err), = run_kind(ctx, 'err-exact', 'err_exact', [xcases])
     if err:
         ctx.fail('correspondence', err[-300:], None)
     else:
@@ -366,7 +393,8 @@ def main(ctx):
         bcases.append({'seed': ctx.seed * 100000 + i, 'xs': xs, 'k': k, 'eigh': eigh, 'rotate': rng.random() < 0.5,
                        'opts': opts})
     chunks = [bcases[i::common.NPROC] for i in range(common.NPROC)]
-    res = common.run_impl_parallel('c15_impl.py', [{'kind': 'book', 'cases': ch} for ch in chunks if ch])
+    chunks = [ch for ch in chunks if ch]
+    res = run_kind(ctx, 'book', 'book', chunks)
     lits = {'svd': [], 'eigh': []}
     keep = {'svd': [], 'eigh': []}
     for ci, (r, err) in enumerate(res):
@@ -432,14 +460,23 @@ def main(ctx):
             sizes = [rng.randint(1, 4) for _ in range(nb[l])]
             ch = [rng.randint(-1, 2) for _ in range(nb[l])]
             legs.append([sizes, ch, 1 if l == 0 else -1])
-        chi = rng.choice([1, 2, 3, 5, 100, None])
-        opts = {'chi_max': chi, 'svd_min': rng.choice([None, 1e-14, 1e-3, 0.2]),
-                'trunc_cut': rng.choice([None, 1e-14, 1e-2, 0.3]), 'chi_min': rng.choice(['absent', None, 2]),
+        chi = rng.choice([1, 2, 3, 5, 100, None, 'absent'])
+        opts = {'chi_max': chi, 'svd_min': rng.choice([None, 1e-14, 1e-3, 0.2, 'absent']),
+                'trunc_cut': rng.choice([None, 1e-14, 1e-2, 0.3, 'absent']), 'chi_min': rng.choice(['absent', None, 2]),
                 'degeneracy_tol': rng.choice(['absent', None, 1e-6])}
         qt = 0 if mod is None else rng.choice([0, 0, legs[0][1][0] - legs[1][1][0]])
         dcases.append({'seed': ctx.seed * 100000 + i, 'opts': opts, 'eigh': (qt == 0 or mod is None) and rng.random() < 0.6,
                        'spec': {'mod': mod, 'legs': legs, 'qtotal': qt, 'complex': rng.random() < 0.4,
                                 'lowrank': rng.random() < 0.2}})
+        d = dcases[-1]
+        # documented parameters: qtotal_LR (svd_theta), UPLO / sort (eigh_rho); the options as dict or as tenpy Config
+        d['config'] = rng.random() < 0.3
+        q = rng.randint(-1, 2)
+        d['qtotal_LR'] = rng.choice([None, None, [None, None], [q, None], [None, q], [q, 0]])
+        if d['eigh']:
+            d['UPLO'] = rng.choice([None, 'L', 'U', 'U'])
+            if rng.random() < 0.7:
+                d['sort'] = rng.choice(['m>', 'm<', '>', '<', None])
         if rng.random() < 0.3:
             dcases[-1]['inner_labels'] = rng.choice([['vR', 'vL'], ['r', 'l'], ['b', 'a']])
             dcases[-1]['spec']['labels'] = rng.choice([['a', 'b'], ['vL', 'vR'], ['(vL.p)', '(q.vR)']])
@@ -448,10 +485,12 @@ def main(ctx):
         nbig *= 2
     dcases += [gen_tiny_rank_case(rng, ctx.seed * 100000 + 50000 + i, i) for i in range(nbig)]
     chunks = [dcases[i::common.NPROC] for i in range(common.NPROC)]
-    res = common.run_impl_parallel('c15_impl.py', [{'kind': 'decomp', 'cases': ch} for ch in chunks if ch])
+    chunks = [ch for ch in chunks if ch]
+    res = run_kind(ctx, 'decomp', 'decomp', chunks)
     nd = 0
     dhist = {'tiny_rank_cases': 0, 'reduction_gt_100x': 0, 'reduction_gt_100x_not_chi_max': 0, 'with_charges': 0, 'complex': 0,
-             'warned': 0}
+             'warned': 0, 'eigh_tiny_rank_cases': 0, 'eigh_reduction_gt_100x_not_chi_max': 0, 'eigh_warned': 0,
+             'uplo_other_triangle_garbage': 0}
     for ci, (r, err) in enumerate(res):
         if err:
             ctx.fail('correspondence', 'decomp runner failed: ' + err[-400:], None)
@@ -482,8 +521,18 @@ def main(ctx):
             got = sorted((s * sv['renorm'] for s in sv['S']), reverse=True)
             if any(abs(a - b) > 1e-9 * max(1, dsv[0]) for a, b in zip(dsv, got)):
                 probs.append('svd_theta: S*renormalization are not the largest singular values')
-            if c['opts']['chi_max'] is not None and sv['chi'] > c['opts']['chi_max']:
+            cmax = 100 if c['opts']['chi_max'] == 'absent' else c['opts']['chi_max']          # documented default
+            if cmax is not None and sv['chi'] > cmax:
                 probs.append('svd_theta: chi %d > chi_max' % sv['chi'])
+            params.note_opts('svd_theta', c['opts'])
+            params.note('svd_theta', 'trunc_par', 'Config' if c.get('config') else 'dict')
+            params.note('svd_theta', 'inner_labels', 'default' if c.get('inner_labels') is None else str(c['inner_labels']))
+            params.note('svd_theta', 'qtotal_LR', 'default' if c.get('qtotal_LR') is None or c['spec']['mod'] is None else
+                        str([None if q is None else 'q' for q in c['qtotal_LR']]))
+            for side, name in ((0, 'U'), (1, 'VH')):
+                w = sv['want_qtotal_LR'][side]
+                if w is not None and sv['qtotal_LR'][side] != w:
+                    probs.append('svd_theta: %s.qtotal = %s, requested by qtotal_LR: %s' % (name, sv['qtotal_LR'][side], w))
             # the factors themselves: documented labels, legs, total charge, dtype; the documented formula evaluates
             if sv['U_labels'] != sv['want_U_labels'] or sv['VH_labels'] != sv['want_VH_labels']:
                 probs.append('svd_theta: labels of U, VH are %s, %s; documented %s, %s (outer labels of theta, inner_labels on the new bond)'
@@ -506,7 +555,7 @@ def main(ctx):
             if c.get('tiny_rank'):
                 dhist['tiny_rank_cases'] += 1
                 dhist['reduction_gt_100x'] += 1 if big else 0
-                if big and (c['opts']['chi_max'] is None or sv['chi'] != c['opts']['chi_max']):
+                if big and (cmax is None or sv['chi'] != cmax):
                     dhist['reduction_gt_100x_not_chi_max'] += 1
                     dhist['with_charges'] += 1 if c['spec']['mod'] is not None else 0
                     dhist['complex'] += 1 if c['spec']['complex'] else 0
@@ -516,7 +565,31 @@ def main(ctx):
                 if abs(eg['disc_weight'] - eg['eps']) > tol:
                     probs.append('eigh_rho: discarded weight %.3e != reported eps %.3e' % (eg['disc_weight'], eg['eps']))
                 if abs(eg['sumW_over_tr'] - 1) > 1e-10 or eg['resid'] > 1e-9 or eg['VdV'] > 1e-10:
-                    probs.append('eigh_rho: W/V are not renormalised eigenpairs of rho (%s)' % eg)
+                    probs.append('eigh_rho: W/V are not renormalised eigenpairs of rho (%s)' % {k: eg[k] for k in ('sumW_over_tr', 'resid', 'VdV')})
+                if not eg['order_ok']:
+                    probs.append('eigh_rho: eigenvalues inside a charge block are not ordered as sort=%r documents' % (c.get('sort'),))
+                if eg['labels'] != eg['want_labels']:
+                    probs.append('eigh_rho: labels of V %s, documented %s' % (eg['labels'], eg['want_labels']))
+                if not eg['rho_unchanged']:
+                    probs.append('eigh_rho modified its argument rho')
+                top = max(eg['dense_ev'][0], 1e-300)
+                if any(abs(a - b) > 1e-9 * top for a, b in zip(eg['W_scaled'], eg['dense_ev'])):
+                    probs.append('eigh_rho: kept eigenvalues (W * (1 - eps)) %s are not the largest ones %s' % (eg['W_scaled'][:4], eg['dense_ev'][:4]))
+                if cmax is not None and eg['chi'] > cmax:
+                    probs.append('eigh_rho: chi %d > chi_max' % eg['chi'])
+                if abs(eg['ov'] - (1 - 2 * eg['eps'])) > 1e-14:
+                    probs.append('eigh_rho: err.ov != 1 - 2 eps')
+                params.note_opts('eigh_rho', c['opts'])
+                params.note('eigh_rho', 'trunc_par', 'Config' if c.get('config') else 'dict')
+                params.note('eigh_rho', 'UPLO', 'default' if c.get('UPLO') is None else c['UPLO'] + (':other-triangle-garbage' if x.get('uplo_garbage') else ''))
+                params.note('eigh_rho', 'sort', 'default' if 'sort' not in c else repr(c['sort']))
+                dhist['uplo_other_triangle_garbage'] += 1 if x.get('uplo_garbage') else 0
+                if c.get('tiny_rank'):
+                    ebig = eg['chi'] * 100 < eg['n']
+                    dhist['eigh_tiny_rank_cases'] += 1
+                    if ebig and (cmax is None or eg['chi'] != cmax):
+                        dhist['eigh_reduction_gt_100x_not_chi_max'] += 1
+                    dhist['eigh_warned'] += 1 if any('reduction in chi' in w for w in eg['warnings']) else 0
             nd += 1
             ctx.count('decomp', c, nontrivial=sv['eps'] > 1e-20 or sv['chi'] < nfull,
                       sample={'opts': c['opts'], 'spec': c['spec'], 'eps': sv['eps'], 'chi': sv['chi']})
@@ -526,9 +599,17 @@ def main(ctx):
     if dhist['tiny_rank_cases'] >= 12 and dhist['reduction_gt_100x_not_chi_max'] == 0:
         ctx.fail('correspondence', 'decomp: no tiny-rank case shrank the bond by more than a factor 100 without hitting chi_max '
                  '(generator lost the catastrophic-reduction path of svd_theta): %s' % dhist, None)
+    if dhist['eigh_tiny_rank_cases'] >= 6 and dhist['eigh_reduction_gt_100x_not_chi_max'] == 0:
+        ctx.fail('correspondence', 'decomp: no tiny-rank case reached the catastrophic-reduction path of eigh_rho: %s' % dhist, None)
+    # ---- audit streams: float spectra, TruncationError API, _eig_based_svd, a caller that accumulates the errors
+    c15_audit.truncate_float_stream(ctx, rng, run_kind, params)
+    c15_audit.err_api_stream(ctx, rng, run_kind, params)
+    c15_audit.eig_svd_stream(ctx, rng, run_kind, params)
+    c15_audit.callers_stream(ctx, rng, run_kind, params)
     # ---- root-input models svd_theta_book / eigh_rho_book on exact data (Model/TruncBookCheck.v);
     #      decompose_theta_qr_based directly and through QRBasedTEBDEngine (dense oracle)
     c15_streams.run(ctx, rng)
+    ctx.c15cov.table(ctx)
     ctx.assumptions += [
         'C15 model: spectra are integers (numerators of dyadic rationals), zeros handled as in the header of coq/Model/Truncate.v',
         'C15 not modelled: float rounding inside np.log / np.linalg.norm (generators keep all compared quantities >= 2^-20 apart or exactly equal); LAPACK in svd_theta/eigh_rho (oracle only; the bookkeeping around it is compared with Model/TruncBook.v: squares-only variants to 1e-9 in stream book, root-input variants svd_theta_book/eigh_rho_book in streams svd-exact/eigh-exact by exact equality when every model value is dyadic and otherwise within 2^-50 (svd_theta) / 2^-49 (eigh_rho) relative, decided inside Coq); decompose_theta_qr_based has no Coq model: dense numpy oracle only (streams qr-direct, qr-engine)',
